@@ -273,25 +273,90 @@ Fixpoint spec_ops (x : obs_state) (os : list op) : bool :=
 Definition spec_ok (c : tcase) : bool :=
   spec_ops (Obs (repeat 0 (n0 c)) 0%nat (w0 c) false []) (ops c).
 
+(** * Concurrent first throttle: k callers of acmeClient.throttle released together on a key
+      that has no limiter yet *)
+
+Record ftcase := FT {
+  ft_n : nat; ft_w : Z;          (* RateLimitEvents, RateLimitEventsWindow *)
+  ft_k : nat;                    (* callers *)
+  ft_deadline : Z;               (* how long each caller waits before its context is cancelled *)
+  ft_admitted : nat;             (* callers whose throttle returned nil *)
+  ft_stamps : nat                (* stamps in the limiter registered under the key afterwards *)
+}.
+
+(** admissions a fresh limiter grants to c simultaneous waiters within the deadline *)
+Fixpoint burst_admitted (c : nat) (s : state) (t0 deadline : Z) : nat :=
+  match c with
+  | O => O
+  | S c' =>
+      match due s with
+      | Some u =>
+          if u <=? t0 + deadline then
+            match admit_one s (Z.max u t0) with
+            | Some s' => S (burst_admitted c' s' t0 deadline)
+            | None => O
+            end
+          else O
+      | None => O
+      end
+  end.
+
+Definition key0 : str := [107%N].
+Definition count_lim (l : nat) (evs : list (str * nat)) : nat :=
+  length (filter (fun e => Nat.eqb (snd e) l) evs).
+
+(** the callers go through the keyed map (one critical section each), then wait on the
+    limiter they were handed *)
+Definition first_throttle_model (c : ftcase) : option nat :=
+  let t0 := Z.max (ft_w c) 0 + 1 in
+  match krun kstep_atomic kinit (map (fun i => KThrottle i key0) (seq 0 (ft_k c))) with
+  | Some (_, evs) =>
+      Some (fold_right Nat.add O
+              (map (fun l => burst_admitted (count_lim l evs) (settle (init (ft_n c) (ft_w c) t0) t0) t0 (ft_deadline c))
+                   (limiters_of key0 evs)))
+  | None => None
+  end.
+
+Definition ft_model_ok (c : ftcase) : bool :=
+  match first_throttle_model c with
+  | Some a => (a =? ft_admitted c)%nat && (ft_stamps c =? (if (ft_n c =? 0)%nat then 0 else ft_admitted c))%nat
+  | None => false
+  end.
+
+(** the property: per CA and account no more than N first attempts pass within the window,
+    however many arrive at once *)
+Definition ft_spec_ok (c : ftcase) : bool :=
+  if (0 <? ft_n c)%nat && (ft_deadline c + 1000000000 <? ft_w c) then (ft_admitted c <=? ft_n c)%nat else true.
+
 (** * Wire *)
+
+Inductive anycase := AHistory (c : tcase) | AFirst (c : ftcase).
 
 Definition get_zlist : dec (list Z) := get_list get_z.
 Definition get_op : dec op :=
   (tg <- get_z ;; a <- get_z ;; c <- get_z ;; e <- get_z ;; r <- get_z ;;
    ex <- get_zlist ;; es <- get_zlist ;; rg <- get_zlist ;; cu <- get_nat ;; w <- get_z ;;
    ret (Op tg a c e r ex es rg cu w))%Z.
-Definition get_case : dec tcase :=
+Definition get_tcase : dec tcase :=
   (n <- get_nat ;; w <- get_z ;; t <- get_z ;; os <- get_list get_op ;; ret (Case n w t os))%Z.
+Definition get_ftcase : dec ftcase :=
+  (n <- get_nat ;; w <- get_z ;; k <- get_nat ;; d <- get_z ;; a <- get_nat ;; st <- get_nat ;; ret (FT n w k d a st))%Z.
+Definition get_case : dec anycase :=
+  (kind <- get_z ;;
+   if kind =? 0 then (c <- get_tcase ;; ret (AHistory c)) else (c <- get_ftcase ;; ret (AFirst c)))%Z.
 
 Definition check_line (l : list Z) : Z :=
   match decode get_case l with
-  | Some c => code (model_ok c) (spec_ok c)
+  | Some (AHistory c) => code (model_ok c) (spec_ok c)
+  | Some (AFirst c) => code (ft_model_ok c) (ft_spec_ok c)
   | None => code_decode_error
   end.
 
-(** diagnostics: index of the first operation the model disagrees with (-1: none) *)
+(** diagnostics: index of the first operation the model disagrees with (-1: none); for a
+    concurrent-first-throttle case the number of admissions the model expects *)
 Definition explain_line (l : list Z) : list Z :=
   match decode get_case l with
-  | Some c => [first_bad (settle (init (n0 c) (w0 c) (t_create c)) (t_create c)) (ops c) 0]
+  | Some (AHistory c) => [first_bad (settle (init (n0 c) (w0 c) (t_create c)) (t_create c)) (ops c) 0]
+  | Some (AFirst c) => [match first_throttle_model c with Some a => Z.of_nat a | None => -1 end]
   | None => []
   end.
